@@ -118,6 +118,14 @@ def gen_plan(seed, tier):
       if st["cmd"] == W.FC_ADD and r.chance(0.15):
         # names a buffer that certainly does not exist
         st["fbuf"] = r.pick([0x7fffffff, 4000])
+      if r.chance(0.2):
+        # an address rewrite before the output (any 32-bit address: what is
+        # installed has to come back in flow statistics and in errors)
+        st["rw"] = [r.pick(["set_nw_src", "set_nw_dst"]),
+                    r.pick([0x0a000001, 0x7fffffff, 0x80000000, 0xc0a80101,
+                            0xffffffff])]
+      if st.get("fbuf") is not None:
+        pass
       elif st["cmd"] == W.FC_ADD and r.chance(0.12):
         # an entry whose action list holds an action of a type the switch
         # cannot know: an invalid request, to be refused as a whole
@@ -335,6 +343,9 @@ def _drive(sim, world, plan, known, hit_known):
     elif op == "flow_mod":
       m = _match_alphabet(st["m"], nports)
       acts = [("output", st["outp"], 0xffff)]
+      if st.get("rw"):
+        acts = [tuple(st["rw"])] + acts
+        sim.probes["flow_mod_with_address_rewrite"] += 1
       key = (W.canon_match(m), st["prio"])
       full = st["cmd"] == W.FC_ADD and key not in model["flows"] and \
           len(model["flows"]) >= cfg["max_entries"]
